@@ -14,7 +14,7 @@ FUNCTIONS = {
 }
 FUNCTIONS['kripke'] = ['Kripke.__init__', 'Kripke.labels', 'Kripke.states', 'Kripke.next', 'Kripke.transitions_iter',
                        'Kripke.transitions', 'Kripke.clone', 'Kripke.get_substructure']
-FUNCTIONS['ctl'] = ['_checkAtomicProposition', '_checkNot', '_checkEX', '_checkOr', '_checkStateFormula', '_checkEU', 'modelcheck']
+FUNCTIONS['ctl'] = ['_checkAtomicProposition', '_checkNot', '_checkEX', '_checkOr', '_checkStateFormula', '_checkEU', '_checkEG', 'modelcheck']
 FUNCTIONS['rewrite'] = ['LNot'] + ['%s.get_equivalent_restricted_formula' % c for c in
                                    ('AtomicProposition', 'Not', 'A', 'E', 'X', 'F', 'G', 'Or', 'And', 'Imply', 'U', 'R')]
 FUNCTIONS['bdd'] = ['find_isomorph', 'BDDNode.__reset__', 'BDDNonTerminalNode.__reset__', 'BDDNonTerminalNode.__new__']
@@ -42,7 +42,11 @@ TRUSTED = {
     'C13': [],
     'C01': ['documented CTL semantics of the restricted operators in fixpoint form (vf/pyvc/formula.py semantic_axioms; CGP00 ch.4; TB1-TB3) - audited end to end by the bounded check against the path-based reference',
             'contract of get_equivalent_restricted_formula (C05, bounded) and injectivity of printing (C09, bounded): memo keys are formula trees',
-            '_checkEG and modelcheck bodies are NOT under proof (contract of _checkEG stated and used modularly; bounded only); compute_SCCs contract bounded (C12)',
+            '_checkEG is proved GIVEN (a) the ASSUMED contract of compute_SCCs = the statement of C12 over rtc (body out of the generator\'s subset; C12 checks it bounded), '
+            '(b) the greatest-fixpoint principle of E G phi (second-order schema, trusted semantics) instantiated syntactically at the returned set, '
+            '(c) CGP00 Lemma 4.1, completeness half, for finite structures: every state of E G phi reaches through phi-states a node on a phi-cycle (finite_structure_cycle_lemma), '
+            '(d) rtc = reflexive-transitive closure: edge/transitivity/last-step axioms, the induction schema and "closure of the converse = converse of the closure" (vf/pyvc/heap.py, trusted mathematics), '
+            '(e) the generator compute_SCCs is consumed as if evaluated eagerly (the loop body writes only the fresh set T, which the generator does not read)',
             'least-fixpoint principle of E(phi U psi) (second-order schema, trusted semantics) instantiated syntactically at the returned set',
             'precondition: Python None is not a state (KF-C19-1)'],
     'C05': ['documented path semantics as axioms over abstract evaluation points (vf/pyvc/formula_sem.py axioms(); logics.rst) incl. skolemised quantifiers',
@@ -92,7 +96,7 @@ def build_engine(repo=None, timeout_ms=20000, seed=0):
 
 
 SLICES = {'Kripke.__init__': 10, 'DiGraph.__init__': 3, 'Kripke.clone': 2, 'DiGraph.add_edge': 2, '_checkOr': 3,
-          '_checkStateFormula': 3, '_checkEX': 2, '_checkEU': 14, 'And.get_equivalent_restricted_formula': 2}
+          '_checkStateFormula': 3, '_checkEX': 2, '_checkEU': 14, '_checkEG': 8, 'And.get_equivalent_restricted_formula': 2}
 
 
 def verify_function(arg):
